@@ -1007,6 +1007,10 @@ class Interp:
             if spec is None:
                 raise Unsupported("for-loop %s over a symbolic range needs an invariant" % key)
             return self.for_symbolic(s, env, globs, key, spec, it)
+        elif hasattr(it, "__next__") and not isinstance(it, (list, tuple)):
+            # an iterator object (iter(...)): consumed one element at a time, because the loop body may itself call
+            # next() on it (tokenizers that read an escaped character ahead)
+            items = it
         else:
             try:
                 items = list(it)
